@@ -497,6 +497,14 @@ func (c *mpConv) msgBody(decls []past.MessageElement) []mpRec {
 			out = append(out, c.ranges("er", d.Ranges)...)
 		case *past.ReservedNode:
 			out = append(out, c.reserved(d)...)
+		case *past.OptionNode:
+			if len(d.Name.Parts) == 1 && !d.Name.Parts[0].IsExtension() && string(d.Name.Parts[0].Name.AsIdentifier()) == "message_set_wire_format" && d.Val != nil {
+				if id, ok := d.Val.Value().(past.Identifier); ok && (id == "true" || id == "false") {
+					out = append(out, mpRec1("ms", string(id[:1])))
+					continue
+				}
+			}
+			c.fail("message option")
 		case *past.EmptyDeclNode:
 		default:
 			c.fail("message decl")
